@@ -4,7 +4,7 @@
    freshly generated GenFifo.v: a change of the source that changes the meaning of a translated
    method breaks a lemma here. *)
 Require Import Capp.Base Capp.Spec Capp.Rr Capp.ListCache Capp.ListCacheFacts Capp.RrLit Capp.LruLit
-               Capp.FifoLit Capp.FifoLitFacts Capp.GenPrims CappGen.GenFifo.
+               Capp.FifoLit Capp.FifoLitFacts Capp.GenPrims Capp.Conc Capp.GenConc CappGen.GenFifo.
 From Coq Require Import Strings.String Lia.
 
 Section FifoBridge.
@@ -321,7 +321,23 @@ Section FifoBridge.
       exists l', run_res g_step (g_init cap) h = Ok (l', snd (run (lc_step fifo_policy) (lc_init cap) h)) /\
                  fl_rep l' (fst (run (lc_step fifo_policy) (lc_init cap) h)).
   Proof. intros cap h Hc. rewrite g_init_ok. apply generated_fifo_no_UB_on_any_history; auto. Qed.
+
+  (* ---- C06 on the translated program: in every execution of the lock-level machine (Conc.v, Section Lin: invoke,
+     acquire, body = one call of the generated program, release, return) every call returns what the mid-level
+     model returns when it runs the calls in the order of their critical sections ---- *)
+  Theorem generated_fifo_lock_level_executions_return_model_results : forall cap ex st,
+      1 <= cap ->
+      mexec _ _ _ (tstep g_step RUnsupported) (minit _ _ _ (g_init cap)) ex st ->
+      let l := lin _ _ _ (tstep g_step RUnsupported) (g_init cap) (fun _ => None) ex in
+      (fun _ => True) (map (fun c => snd (fst c)) l) ->
+      map snd l = (fun h => snd (run (lc_step fifo_policy) (lc_init cap) h)) (map (fun c => snd (fst c)) l).
+  Proof.
+    intros cap ex st Hc Hex.
+    refine (executions_have_the_results_of_the_model g_step RUnsupported (fun _ => True) (fun h => snd (run (lc_step fifo_policy) (lc_init cap) h)) (g_init cap) _ ex st Hex).
+    intros h HP. destruct (generated_fifo_constructed_no_UB_on_any_history cap h Hc) as (l' & D & _). eauto.
+  Qed.
 End FifoBridge.
 
 Print Assumptions generated_fifo_no_UB_on_any_history.
 Print Assumptions generated_fifo_constructed_no_UB_on_any_history.
+Print Assumptions generated_fifo_lock_level_executions_return_model_results.
